@@ -202,6 +202,19 @@ func (vc *VC) ghostAssign(env *Env, ga *GhostAssign, st *State) {
 	vc.setH(st, ga.Var, vc.pre.sortOf(t), tv.T)
 }
 
+// BytesVal is the type of content(b) values (abstract byte strings)
+type BytesVal struct{}
+
+func (b *BytesVal) Underlying() types.Type { return b }
+func (b *BytesVal) String() string         { return "bytesvalue" }
+
+var bytesT = &BytesVal{}
+
+func (vc *VC) contentOf(s string, st *State) string {
+	n, hs := vc.arrHeap(types.Typ[types.Uint8])
+	return fmt.Sprintf("(bcontent (select %s (s_ref %s)) (s_off %s) (s_len %s))", vc.getH(st, n, hs), s, s, s)
+}
+
 var boolT = types.Typ[types.Bool]
 var intT = types.Typ[types.Int]
 
@@ -776,6 +789,9 @@ func (e *Env) call(x *ECall) TV {
 			vc.nfresh++
 			r := q(fmt.Sprintf("r!%d", vc.nfresh))
 			return TV{T: fmt.Sprintf("(forall ((%s Int)) (! (=> (not (= %s (s_ref %s))) (= (select %s %s) (select %s %s))) :pattern ((select %s %s))))", r, r, v.T, cur, r, old, r, cur, r), Ty: boolT}
+		case "content": // content(b): the byte string held by slice b in the current heap, as an abstract value
+			v := e.eval(x.Args[0])
+			return TV{T: vc.contentOf(v.T, e.cur), Ty: bytesT}
 		case "emptyset":
 			t, err := vc.P.resolveType(typeText(x.Args[0]), e.pkgPath)
 			if err != nil {
